@@ -26,6 +26,32 @@ fn main() {
     logcap::install();
     install_panic_hook();
     match args[0].as_str() {
+        "fmt" => {
+            // fmt [key=value ...] < input : format stdin with a configuration, print output + time
+            use std::io::Read;
+            let mut input = String::new();
+            std::io::stdin().read_to_string(&mut input).unwrap();
+            let mut cfg = Cfg::default();
+            for a in &args[1..] {
+                if let Some((k, v)) = a.split_once('=') {
+                    match k {
+                        "wrap_column" => cfg.wrap_column = v.parse().unwrap(),
+                        "begin_style" => cfg.begin_always_wrap = v == "always_wrap",
+                        "format_multiline_strings" => cfg.format_multiline_strings = v == "true",
+                        "use_tabs" => cfg.use_tabs = v == "true",
+                        "tab_width" => cfg.tab_width = v.parse().unwrap(),
+                        "continuation_indents" => cfg.continuation_indents = v.parse().unwrap(),
+                        "line_ending" => cfg.crlf = v == "crlf",
+                        _ => {}
+                    }
+                }
+            }
+            let t0 = std::time::Instant::now();
+            let out = format_with(&cfg, &input);
+            let dt = t0.elapsed();
+            print!("{out}");
+            eprintln!("[{} bytes in, {} bytes out, {:?}, logs: {:?}]", input.len(), out.len(), dt, logcap::take());
+        }
         "list" => {
             for p in props::all() {
                 println!("{}", p.id());
